@@ -64,6 +64,86 @@ ssize_t c_len() {
     return D->kind == K_QUEUE ? m_queue_len(D->q) : D->kind == K_STACK ? m_stack_len(D->s) : m_list_len(D->l);
 }
 
+
+// ---- twin walk: two identical containers, the same iterator calls on both, plus - on the second only - calls that are refused.
+// A refused call changes nothing: from then on both walks must yield the same elements, end together and leave equal containers.
+struct Twin {
+    int kind;
+    m_queue_t *q = nullptr; m_stack_t *s = nullptr; m_list_t *l = nullptr;
+    void *itr = nullptr;
+    void make(int k, const std::vector<long> &vals) {
+        kind = k;
+        if (k == K_QUEUE) { q = m_queue_new(nullptr); for (long v : vals) m_queue_enqueue(q, cell(v)); }
+        else if (k == K_STACK) { s = m_stack_new(nullptr); for (long v : vals) m_stack_push(s, cell(v)); }
+        else { l = m_list_new(nullptr, nullptr); for (long v : vals) m_list_insert(l, cell(v)); }
+    }
+    void begin() { itr = kind == K_QUEUE ? (void *)m_queue_itr_new(q) : kind == K_STACK ? (void *)m_stack_itr_new(s) : (void *)m_list_itr_new(l); }
+    void *get() { return !itr ? nullptr : kind == K_QUEUE ? m_queue_itr_get_data((m_queue_itr_t *)itr) : kind == K_STACK ? m_stack_itr_get_data((m_stack_itr_t *)itr) : m_list_itr_get_data((m_list_itr_t *)itr); }
+    int remove() { return kind == K_QUEUE ? m_queue_itr_remove((m_queue_itr_t *)itr) : kind == K_STACK ? m_stack_itr_remove((m_stack_itr_t *)itr) : m_list_itr_remove((m_list_itr_t *)itr); }
+    int set(void *v) { return kind == K_QUEUE ? m_queue_itr_set_data((m_queue_itr_t *)itr, v) : kind == K_STACK ? m_stack_itr_set_data((m_stack_itr_t *)itr, v) : m_list_itr_set_data((m_list_itr_t *)itr, v); }
+    int insert(void *v) { return kind == K_LIST ? m_list_itr_insert((m_list_itr_t *)itr, v) : -1; }
+    void next() { if (!itr) return; if (kind == K_QUEUE) m_queue_itr_next((m_queue_itr_t **)&itr); else if (kind == K_STACK) m_stack_itr_next((m_stack_itr_t **)&itr); else m_list_itr_next((m_list_itr_t **)&itr); }
+    ssize_t len() { return kind == K_QUEUE ? m_queue_len(q) : kind == K_STACK ? m_stack_len(s) : m_list_len(l); }
+    std::vector<long> content() {
+        std::vector<long> out;
+        if (len() <= 0) return out;
+        if (kind == K_QUEUE) for (m_queue_itr_t *i = m_queue_itr_new(q); i; m_queue_itr_next(&i)) out.push_back(is_cell(m_queue_itr_get_data(i)) ? cell_id(m_queue_itr_get_data(i)) : -1);
+        else if (kind == K_STACK) for (m_stack_itr_t *i = m_stack_itr_new(s); i; m_stack_itr_next(&i)) out.push_back(is_cell(m_stack_itr_get_data(i)) ? cell_id(m_stack_itr_get_data(i)) : -1);
+        else for (m_list_itr_t *i = m_list_itr_new(l); i; m_list_itr_next(&i)) out.push_back(is_cell(m_list_itr_get_data(i)) ? cell_id(m_list_itr_get_data(i)) : -1);
+        return out;
+    }
+    void drop() {
+        if (itr) sk_free(itr);
+        itr = nullptr;
+        if (q) m_queue_free(&q);
+        if (s) m_stack_free(&s);
+        if (l) m_list_free(&l);
+    }
+};
+
+void twin_walk(int kind, uint64_t seed) {
+    sim::Rng r(seed);
+    oracle_eval("C12.refused-call-changes-nothing");
+    std::vector<long> vals;
+    int n = (int)r.range(1, 5);
+    for (int i = 0; i < n; i++) vals.push_back(D->next_val++);
+    Twin a, b;
+    a.make(kind, vals); b.make(kind, vals);
+    a.begin(); b.begin();
+    int refused = 0;
+    std::string script;
+    for (int step = 0; step < 14 && (a.itr || b.itr); step++) {
+        if (!a.itr != !b.itr) VIOL("C12", "C12:refused-call-changed-the-walk", "%s twin walk: one iterator ended, the other did not (after %d refused call(s); script %s)", kind == K_QUEUE ? "queue" : kind == K_STACK ? "stack" : "list", refused, script.c_str());
+        void *ga = a.get(), *gb = b.get();
+        if (ga != gb) VIOL("C12", "C12:refused-call-changed-the-walk", "%s twin walk: the iterators stand on different elements (%ld vs %ld) after %d refused call(s); script %s", kind == K_QUEUE ? "queue" : kind == K_STACK ? "stack" : "list",
+                           is_cell(ga) ? cell_id(ga) : -1, is_cell(gb) ? cell_id(gb) : -1, refused, script.c_str());
+        // an extra call on the second walk that must be refused: a NULL value, or a removal where there is no element
+        if (r.chance(0.5)) {
+            int which = (int)r.below(3);
+            int rc;
+            if (which == 0) { rc = b.set(nullptr); script += "b.set(NULL) "; }
+            else if (which == 1 && kind == K_LIST) { rc = b.insert(nullptr); script += "b.insert(NULL) "; }
+            else if (!gb) { rc = b.remove(); script += "b.remove(nothing) "; }
+            else rc = -1;
+            if (rc == 0) { a.drop(); b.drop(); return; }   // accepted: decided elsewhere (see the itr op), nothing to compare
+            refused++;
+            sim::R->ctr.probe("twin_refused_call");
+        }
+        int act = (int)r.below(10);
+        int ra = 0, rb = 0;
+        if (act < 3) { ra = a.remove(); rb = b.remove(); script += "remove "; }
+        else if (act < 5 && ga) { long nv = D->next_val++; ra = a.set(cell(nv)); rb = b.set(cell(nv)); script += "set "; }
+        else if (act < 7 && kind == K_LIST) { long nv = D->next_val++; ra = a.insert(cell(nv)); rb = b.insert(cell(nv)); script += "insert "; }
+        else { a.next(); b.next(); script += "next "; }
+        if (ra != rb) VIOL("C12", "C12:refused-call-changed-the-walk", "%s twin walk: the same call returned %d on one walk and %d on the other after %d refused call(s); script %s", kind == K_QUEUE ? "queue" : kind == K_STACK ? "stack" : "list", ra, rb, refused, script.c_str());
+    }
+    if (a.itr) { sk_free(a.itr); a.itr = nullptr; }
+    if (b.itr) { sk_free(b.itr); b.itr = nullptr; }
+    if (a.len() != b.len() || a.content() != b.content())
+        VIOL("C12", "C12:refused-call-changed-the-container", "%s twin walk: the containers differ after %d refused call(s); script %s", kind == K_QUEUE ? "queue" : kind == K_STACK ? "stack" : "list", refused, script.c_str());
+    a.drop(); b.drop();
+}
+
 // read-only walk with a fresh iterator
 std::vector<long> walk() {
     std::vector<long> out;
@@ -405,6 +485,8 @@ RunResult run_qsl(const Program &p, bool trace) {
                 D->mutations++;
             }
             expect_dlog(removed, "iterator", replaced);
+        } else if (n == "itr_twin") {
+            twin_walk((int)(op.arg(1) % 3), sim::mix64(p.getu("seed"), (uint64_t)op.arg(0) + 991));
         } else if (n == "free") {
             int k = D->kind, d = D->has_dtor, c = D->has_cmp;
             do_free();
@@ -452,7 +534,8 @@ Program gen_qsl(uint64_t seed, bool thorough) {
         case 2: p.add("D", "drop", {(long)r.below(64), (long)r.below(8)}); break;
         case 3: p.add("D", "itr", {(long)r.below(100000), (long)(r.chance(0.6) ? r.below(60) : 0), (long)(r.chance(0.3) ? r.below(40) : 0),
                                    (long)(r.chance(0.25) ? r.below(30) : 0), r.chance(0.35) ? (long)r.below(3) : -1, (long)(r.chance(0.3) ? r.below(101) : 0)}); break;
-        case 4: p.add("D", "find", {(long)r.below(64), (long)r.below(8)}); break;
+        case 4: if (r.chance(0.4)) { p.add("D", "itr_twin", {(long)r.below(100000), (long)r.below(3)}); break; }
+                p.add("D", "find", {(long)r.below(64), (long)r.below(8)}); break;
         case 5: p.add("D", "clear"); break;
         case 6: p.add("D", "free"); break;
         case 7: p.add("D", "new", {(long)r.below(3), (long)r.below(2), (long)r.below(2)}); break;
